@@ -117,6 +117,17 @@ CHECKS = {
         note='Exact-time comparison is sound because processing takes zero virtual time; equal-instant ties are may-events.',
         technique='virtual-time trace checker against a reference retry model; timer monitor; fault-script enumeration',
         engine='detsched+simcf', design='DESIGN.md §3 C10'),
+    'C09': dict(
+        level='exploration',
+        text=('Generated rooms with known ground truth (2..6 base stations, arbitrary ids, full and partial visibility chains, '
+              '3..40 Crazyflie poses) are turned into exact time-stamped sweep-angle measurements (shuffled within each time '
+              'group) and fed through the real matcher -> initial estimator -> geometry solver. The monitor compares every '
+              'returned base-station and Crazyflie pose with the generating pose expressed in the frame of the first matched '
+              'sample (1 mm / 1 mrad), the matcher groups with the generated time groups, and requires LhException for '
+              'constellations whose visibility graph is disconnected. Measured errors are reported in the evidence samples.'),
+        note='Sampled rooms inside the stated envelope; numpy/scipy trusted.',
+        technique='ground-truth oracle on the outputs of the real estimation pipeline over generated rooms',
+        engine='lighthouse-oracles', design='DESIGN.md §3 C09'),
 }
 
 PENDING_REASON = ('check not built yet in this work session (design in DESIGN.md §3); nothing is claimed for it '
@@ -162,6 +173,9 @@ def manifest():
         'engines': [
             {'name': 'codec-oracles', 'path': 'vf/checks', 'serves_properties': ['C13'],
              'kind_free_text': 'independent reference computations judged against return values of the real functions'},
+            {'name': 'lighthouse-oracles', 'path': 'vf/lhgen.py, vf/checks/c09.py c15.py c16.py',
+             'serves_properties': [p for p in ('C09', 'C15', 'C16') if p in CHECKS],
+             'kind_free_text': 'room / pose generators with ground truth and independent numpy reference computations'},
             {'name': 'pump', 'path': 'vf/checks/c07.py', 'serves_properties': ['C07'],
              'kind_free_text': 'the dispatcher loop run in the harness thread over a scripted link (no scheduler)'},
             {'name': 'detsched+simcf', 'path': 'vf/detsched.py, vf/simcf.py, vf/simlink.py',
